@@ -540,6 +540,29 @@ Definition read_ext_command (ls : lexstate) (ttype : list ch) (argt tag1 tag2 : 
     else Unsupported U_UPPER
   else Unsupported U_UPPER.
 
+(* ---- lex_preprocess: the scan that runs before the main loop of every lex() call ----
+   It skips /* */ and // comments, reads a word (get_word) at every upper-case letter - and then ONE more character,
+   whatever it is - stops at the word END / End, and registers a user function at the word FUNCTION / Function.
+   User functions are outside this model: the scan only reports whether it would register one. *)
+Fixpoint pre_finds_function (fuel : nat) (s : list ch) : bool :=
+  match fuel with
+  | O => false
+  | S f =>
+      match s with
+      | [] => false
+      | c :: r =>
+          if prefixb [47; 42] s then let '(_, s1, _) := get_token_s [42; 47] s 0 in pre_finds_function f s1
+          else if prefixb [47; 47] s then let '(_, s1, _) := get_token_ch c_NL s 0 in pre_finds_function f s1
+          else if is_upper c then
+            let '(w, s1) := get_word s in
+            if list_eqb w (zs "FUNCTION") || list_eqb w (zs "Function") then true
+            else if list_eqb w (zs "END") || list_eqb w (zs "End") then false
+            else pre_finds_function f (tl s1)          (* cur.get_char() after the word *)
+          else pre_finds_function f r
+      end
+  end.
+Definition lex_pre (src : list ch) : bool := pre_finds_function (S (length src)) src.
+
 (* ---- lex(): the main loop ---- *)
 Definition lex_out := (list tok * lexstate)%type.
 
@@ -547,6 +570,7 @@ Fixpoint lex_f (fuel : nat) (ls : lexstate) (src : list ch) (lineno : Z) : res l
   match fuel with
   | O => OutOfFuel
   | S f =>
+    if lex_pre src then Unsupported U_FUNCTION else
     (fix loop (n : nat) (ls : lexstate) (s : list ch) (ln : Z) (harmony : bool) (acc : list tok) {struct n} : res lex_out :=
        match n with
        | O => OutOfFuel
